@@ -223,7 +223,7 @@ def matmul(
 def linear(
     input: Tensor,
     weight: Tensor,
-    bias: Optional[Tensor],
+    bias: Optional[Tensor] = None,
     constraint: Optional[str] = "to_output_scale",
     scale_power: Tuple[float, float, float] = (0.5, 0.5, 0.5),
 ) -> Tensor:
@@ -254,7 +254,7 @@ def linear(
 def linear_readout(
     input: Tensor,
     weight: Tensor,
-    bias: Optional[Tensor],
+    bias: Optional[Tensor] = None,
     constraint: Optional[str] = None,
 ) -> Tensor:
     return linear(
